@@ -345,7 +345,7 @@ func c09Shape(fs *Facts, sw *File) {
 	for _, n := range c09Increments {
 		items = append(items, item{sw, c09Swamp, "swamp", n})
 	}
-	items = append(items, item{sw, c09Swamp, "swamp", "deleteHandler"}, item{sw, c09Swamp, "swamp", "CloneAndDeleteTreasuresByKeys"})
+	items = append(items, item{sw, c09Swamp, "swamp", ccDeleteHandlerName(sw)}, item{sw, c09Swamp, "swamp", "CloneAndDeleteTreasuresByKeys"})
 	if pf, err := Load(c09Patch); err == nil {
 		items = append(items, item{pf, c09Patch, "swamp", "PatchFields"})
 	} else {
